@@ -193,10 +193,11 @@ int main()
 #ifdef CALLS_DYLIB
   const char* so = getenv("VH_GUEST_SO");
   if (!so) { fprintf(stderr, "VH_GUEST_SO not set\n"); return 2; }
-  g_sb[0].create_sandbox(so); g_sb[1].create_sandbox(so);
-  {
+  const char* so2 = getenv("VH_GUEST_SO2");      // a second guest library exporting the same names (sandbox 1)
+  g_sb[0].create_sandbox(so); g_sb[1].create_sandbox(so2 ? so2 : so);
+  for (int i = 0; i < 2; i++) {
     using SetFn = void (*)(long (*)(long), void (*)(long));
-    auto set = reinterpret_cast<SetFn>(g_sb[0].lookup_symbol("vh_set_hooks"));
+    auto set = reinterpret_cast<SetFn>(g_sb[i].lookup_symbol("vh_set_hooks"));
     set(+[](long a) -> long { return (long)gl_node((GLong)a); }, +[](long a) { gv_node((GLong)a); });
   }
 #else
@@ -204,6 +205,22 @@ int main()
 #endif
   g_sb[0].set_transition_state(&g_state[0][0]); g_sb[1].set_transition_state(&g_state[1][0]);
   main_loop([&](const std::vector<std::string>& t) -> std::string {
+    if (t[0] == "dywho" && t.size() == 1) {
+      // two live sandboxes bound to two different libraries that export the same names: each function runs in ITS library,
+      // including the library-internal calls it makes
+#ifdef CALLS_DYLIB
+      return guarded([&]() -> std::string {
+        std::string out = "ok";
+        for (int i = 0; i < 2; i++) {
+          auto r = g_sb[i].INTERNAL_invoke_with_func_ptr<int()>("vh_whoami", g_sb[i].lookup_symbol("vh_whoami"));
+          out += " " + std::to_string(r.UNSAFE_unverified());
+        }
+        return out;
+      });
+#else
+      return "na";
+#endif
+    }
     if (t[0] == "cbptr" && t.size() == 3) {
       // a callback returns a pointer to a cell it allocated in sandbox memory; the guest dereferences what it received
       int sb = atoi(t[1].c_str()); g_ptr_val = (long)parse_dec(t[2]);
